@@ -592,4 +592,22 @@ def runListings {α} (fresh : Bool) : Heap α → List (List α) → Heap α × 
     let (h2, ks) := runListings fresh h1 rs
     (h2, k :: ks)
 
+/-! ## the friend list expires; the multi-board validity query answers per request entry -/
+
+/-- cache.IsHiddenBoardFriend on (is the uid on the list cached in shared memory, is it in the board's file, is the
+cached list older than HBFLexpire): the expiry is looked at FIRST — an expired list is replaced by the file — and only
+then is the list scanned.  Result: (answer, on the cached list afterwards). -/
+def hbflFriend (cached inFile expired : Bool) : Bool × Bool :=
+  let list := if expired then inFile else cached      -- HbflReload
+  (list, list)
+
+/-- one entry of a bbs.IsBoardsValidUser request -/
+inductive MultiAns where
+  | valid | invalid | none
+  deriving DecidableEq, Repr, Inhabited
+
+/-- bbs.IsBoardsValidUser: every request entry is answered on its own — ToRaw refuses ⇒ no answer; otherwise the
+answer of ptt.IsBoardValidUser for THAT board, stored under THAT entry. -/
+def boardsValid {ε} (answer : ε → MultiAns) (request : List ε) : List MultiAns := request.map answer
+
 end PttVerif.C07
